@@ -8,6 +8,7 @@ import EraVerif.Model.C10Readers
 import EraVerif.Model.C10Canon
 import EraVerif.Model.C10Verify
 import EraVerif.Model.C10Votes
+import EraVerif.Model.C10Store
 
 /-!
 Model driver of C10. One JSON operation per line, one JSON observation per line.
@@ -27,6 +28,8 @@ Model driver of C10. One JSON operation per line, one JSON observation per line.
 * `{"op":"sel","old":{"key","kind","inner"},"new":{..}}`      → `{"sel","old_view","new_view"}`
 * `{"op":"cqc","ctx":{..},"qc":{..}}`, `{"op":"tqc",..}`, `{"op":"implied",..}` → `{"class",..}`
 * `{"op":"votes","ctx":{..},"msgs":[{"kind":"commit"|"timeout","signer":i|null,"sig":bool,"m":vote|tvote}]}` → `{"verdicts":[..],"view"}`
+* `{"op":"bss","first":F,"last":null|n,"n":N}` (`BlockStoreState::{contains,head,verify,next}`) → `{"contains","head","verify","next"}`
+* `{"op":"node",..}` a real node instance fed absurd RPC messages: it must stay alive → `{"ping":true,"fetched":true}`
 * `{"op":"replica",..}` (only exercised on the implementation) → `{}`
 -/
 namespace Driver.C10
@@ -325,6 +328,18 @@ def opVotes (j : Json) : Json :=
     | r => obj (clsOf r)
   | _, _ => badOp
 
+def opBss (j : Json) : Json :=
+  match getNat j "first", getNat j "n" with
+  | some first, some n =>
+    let s : Store.BSS := ⟨first, getNat j "last"⟩
+    match Store.contains s n with
+    | .ok b =>
+      obj [("contains", Json.bool b), ("head", natJ (Store.head s)),
+           ("verify", strJ (match Store.verify s with | .ok _ => "ok" | _ => "err")),
+           ("next", match Store.next s with | .ok x => natJ x | _ => strJ "panic")]
+    | r => obj (clsOf r)
+  | _, _ => badOp
+
 def handle (j : Json) : Json :=
   match getStr j "op" with
   | some "dur" => opDur false j
@@ -344,6 +359,8 @@ def handle (j : Json) : Json :=
   | some "tqc" => opTqc j
   | some "implied" => opImplied j
   | some "votes" => opVotes j
+  | some "bss" => opBss j
+  | some "node" => obj [("ping", Json.bool true), ("fetched", Json.bool true)]
   | some "replica" => obj []
   | _ => badOp
 
